@@ -32,7 +32,7 @@ META = {
                   "transliteration of tred2/tql2/hypot are tied to /repo BIT FOR BIT on every run (vm_compute, no tolerance); exact correspondence of the Q model "
                   "on systems whose float run is exact; an exact residual checker inside Coq accepts the float model on a fixed family (dimensions 1-12) and on "
                   "every generated matrix; an independent exact-arithmetic oracle checks residuals, orthonormality, ordering and SingularError on the real code.",
-    "level_note": "NOT proved: that Householder tridiagonalisation + implicit QL in floating point converge and return Q, d with Q diag(d) Q^T = C and Q^T Q = I "
+    "level_note": "Tie/T20.v also states soundness and the singular case about the lsolve GENERATED from the source text, over exact rationals (tie_c20_generated_*). NOT proved: that Householder tridiagonalisation + implicit QL in floating point converge and return Q, d with Q diag(d) Q^T = C and Q^T Q = I "
                   "(convergence/accuracy of the float iteration is out of reach here) - that clause of the property is only TESTED (bit-exact float model + exact "
                   "residuals in Coq on a fixed family and on generated matrices, exact oracle on the real code); c20_eig_decomposition_partial proves only the "
                   "ordering/consistency part. The lsolve theorems are about exact rational arithmetic: rounding is not modelled, so 'to working precision relative "
